@@ -950,7 +950,8 @@ func uRunX(t *testing.T, sc *uScript, out *vfWriter, scribble, quiet bool, rb *u
 				smu.Lock()
 				delete(local, st.S)
 				smu.Unlock()
-				info := b.info
+				cp := *b.info // (an equal description at another address, never the object Bind was given)
+				info := &cp
 				if st.Bare {
 					info = &interceptor.StreamInfo{SSRC: b.info.SSRC}
 				}
@@ -964,7 +965,8 @@ func uRunX(t *testing.T, sc *uScript, out *vfWriter, scribble, quiet bool, rb *u
 				delete(remote, st.S)
 				staleRemote[st.S] = b
 				smu.Unlock()
-				info := b.info
+				cp := *b.info // (an equal description at another address, never the object Bind was given)
+				info := &cp
 				if st.Bare {
 					info = &interceptor.StreamInfo{SSRC: b.info.SSRC}
 				}
